@@ -367,6 +367,20 @@ class World:
                 for n in ctx.created:
                     if n in self.ents and self.ents[n].kind == "v":
                         self.check_coherence(self.ents[n], ctx, prop=("C14", "C09"))
+        elif "I3" not in self.inv and self.cfg.get("shadow") and ctx.op["k"] != "finish":
+            # C03 / C04 / C12 / C15 have no coherence oracle of their own; what they
+            # say about solvePDE holds for *every* call at *every* point of a history,
+            # so the call is made on a deep copy of each affected variable right now
+            todo = []
+            for n in ctx.i3:
+                if n in self.ents and self.ents[n].kind == "v" and n not in todo:
+                    todo.append(n)
+            for n in list(todo):
+                for s_ in self.sharers(self.ents[n].meta.get("bc")):
+                    if s_ not in todo:
+                        todo.append(s_)
+            for n in todo[:4]:
+                self.check_shadow_contract(self.ents[n], ctx)
         elif "I3" in self.inv:
             todo = []
             for n in ctx.i3:
@@ -757,6 +771,82 @@ class World:
                 self.flag(prop, "I3", sig, {"var": e.name, "mode": mode,
                                              "maxdiff": maxdiff(got[1], want[1])})
                 return
+
+    def check_shadow_contract(self, e, ctx):
+        """solvePDE on a deep copy of `e` (carrying all hidden state) with a fixed
+        well-posed term list, judged by the oracle of the property being checked:
+        the stored solution solves the system the harness assembles independently
+        from a fresh boundary term and the same terms (C04 I5, C15 determinism),
+        with the transient part re-derived (C12 I6), and is consistent with the
+        boundary values the copy then reports (C03 I4)."""
+        if e.meta.get("bc") not in self.ents or e.meta.get("noprecalc"):
+            return
+        if not self.bc_ok(e) or self.bcs_invalid(e):
+            return
+        if not np.all(np.isfinite(e.meta["val"])):
+            return
+        pf = self.pf
+        ment = self.mesh_of(e)
+        tw, _ = self.twin_of(e)
+        if tw is None:
+            return
+        try:
+            dt_, al_ = 0.37, 1.0
+            Mt, Rt = pf.transientTerm(tw, dt_, al_)
+            Md = pf.diffusionTerm(pf.FaceVariable(ment.obj, 1.0))
+            terms = [(Mt, Rt), -Md]
+            inner, ghost = O.interior_index(ment.obj.dims)
+            n = inner.size + ghost.size
+            diag = np.zeros(n)
+            diag[inner] = al_ / dt_
+            rhs_t = np.zeros(n)
+            rhs_t[inner] = (al_ * np.asarray(e.meta["val"], dtype=float) / dt_).ravel()
+            Mbc, Rbc = pf.boundaryConditionsTerm(tw.BCs)
+            M, RHS = O.assemble(Mbc, Rbc, [((sp.diags_array(diag, format="csr"), rhs_t), False, None),
+                                           (Md, True, None)])
+            x_exp = _scipy_spsolve(M, RHS)
+        except Exception:
+            return
+        if not (np.all(np.isfinite(x_exp)) and np.all(np.isfinite(M.data)) and np.all(np.isfinite(RHS))):
+            return
+        sh = copy.deepcopy(e.obj)
+        self.oracle_runs["shadow-contract"] += 1
+        origin = e.meta.get("origin")
+        try:
+            ret = pf.solvePDE(sh, terms)
+        except Exception as ex:
+            det = {"var": e.name, "exc": repr(ex), "in": "shadow-solve"}
+            self.flag("C04", "I5", "solve-raises/origin=%s" % origin, det)
+            self.flag("C12", "I6", "transient/step-raises/origin=%s" % origin, det)
+            self.flag("C03", "I4", "%s/shadow-solve-raises" % ment.meta["cls"], det)
+            self.flag("C15", "I7", "solvePDE/raises-depending-on-call-history", det)
+            return
+        nd = len(ment.meta["faces"])
+        shp = tuple(int(d) + 2 for d in ment.obj.dims)
+        xe = np.reshape(x_exp, shp)
+        xc = np.array(xe, copy=True)
+        xc[(slice(1, -1),) * nd] = A.interior(sh)
+        r1 = O.backward_residual(M, RHS, xc)
+        r0 = O.backward_residual(M, RHS, xe)
+        if np.isfinite(r0) and (not np.isfinite(r1) or r1 > max(1e-9, 1e3 * r0)):
+            det = {"var": e.name, "residual": r1, "reference_residual": r0, "in": "shadow-solve",
+                   "after_fault": ctx.fault}
+            self.flag("C04", "I5", "assembly", det)
+            self.flag("C12", "I6", "transient/step-equation", det)
+            self.flag("C15", "I7", "solvePDE/result-depends-on-call-history", det)
+            self.flag("C03", "I4", "%s/solve/interior-vs-solver-rows" % ment.meta["cls"], det)
+            return
+        if ret is not sh:
+            self.flag("C04", "I5", "identity", {"var": e.name, "in": "shadow-solve"})
+        if self.prop == "C03":
+            # the boundary values the copy reports after the solve satisfy the relation
+            st = self.ents[e.meta["bc"]].meta["state"]
+            cls, faces = self.mesh_model(ment)
+            bad = O.bc_relation_failures(cls, faces, st, A.full_array(sh))
+            if bad:
+                flags = "".join("P" if O.axis_periodic(st, ax) else "-" for ax in range(nd))
+                self.flag("C03", "I4", "%s/shadow-solve/axis%d/%s/%s" % (cls, bad[0][0], bad[0][1], flags),
+                          {"var": e.name, "side": bad[0][2], "residual": bad[0][3]})
 
     def stale_signature(self, e, ctx):
         b = self.ents[e.meta["bc"]]
